@@ -35,7 +35,7 @@ use rayon::prelude::*;
 use rpki::crypto::KeyIdentifier;
 use rpki::resources::addr::{MaxLenPrefix, Prefix};
 use rpki::resources::asn::Asn;
-use rpki::rtr::payload::Payload;
+use rpki::rtr::payload::{Payload, PayloadType};
 use rpki::rtr::pdu::{ProviderAsns, RouterKeyInfo};
 use rpki::slurm::{AspaAssertion, AspaFilter, Base64KeyInfo, BgpsecAssertion, BgpsecFilter, LocallyAddedAssertions,
     PrefixAssertion, PrefixFilter, SlurmFile, ValidationOutputFilters};
@@ -136,6 +136,32 @@ fn fields_of(p: &Payload) -> MPay {
         Payload::RouterKey(k) => { let mut s = [0u8; 20]; s.copy_from_slice(k.key_identifier.as_slice()); MPay::Key { ski: s, asn: k.asn.into_u32(), info: k.key_info.as_slice().to_vec() } }
         Payload::Aspa(a) => MPay::Aspa { customer: a.customer.into_u32(), providers: a.providers.iter().map(|x| x.into_u32()).collect() },
     }
+}
+
+/// Accessor sweep: every accessor of a payload item must agree with the
+/// public fields `fields_of` reads (differential, no expectations of its own).
+fn accessor_disagreement(p: &Payload) -> Option<String> {
+    let m = fields_of(p);
+    match (p, &m) {
+        (Payload::Origin(o), MPay::Origin { p: mp, .. }) => {
+            if o.is_v4() != mp.v4 || o.is_v4() != o.prefix.prefix().is_v4() || o.is_v4() != o.prefix.addr().is_ipv4() { return Some(format!("RouteOrigin::is_v4() = {} for {}", o.is_v4(), m.text())) }
+            if p.payload_type() != PayloadType::Origin { return Some(format!("payload_type() = {:?} for an origin", p.payload_type())) }
+            if p.to_origin() != Some(*o) || p.as_router_key().is_some() || p.as_aspa().is_some() { return Some("to_origin / as_router_key / as_aspa disagree with the variant".into()) }
+        }
+        (Payload::RouterKey(k), MPay::Key { info, .. }) => {
+            if p.payload_type() != PayloadType::RouterKey { return Some(format!("payload_type() = {:?} for a router key", p.payload_type())) }
+            if k.key_info.clone().into_bytes().as_ref() != &info[..] || AsRef::<[u8]>::as_ref(&k.key_info) != &info[..] { return Some("RouterKeyInfo::into_bytes / as_ref differ from as_slice".into()) }
+            if p.as_router_key() != Some(k) || p.to_origin().is_some() || p.as_aspa().is_some() { return Some("to_origin / as_router_key / as_aspa disagree with the variant".into()) }
+        }
+        (Payload::Aspa(a), MPay::Aspa { customer, providers }) => {
+            if p.payload_type() != PayloadType::Aspa { return Some(format!("payload_type() = {:?} for an ASPA", p.payload_type())) }
+            if a.key().into_u32() != *customer { return Some(format!("Aspa::key() = {} but customer = {customer}", a.key())) }
+            if a.providers.asn_count() as usize != providers.len() || a.providers.len() != 4 * providers.len() || a.providers.is_empty() != providers.is_empty() { return Some(format!("ProviderAsns::asn_count() = {} len() = {} for {} providers", a.providers.asn_count(), a.providers.len(), providers.len())) }
+            if p.as_aspa() != Some(a) || p.to_origin().is_some() || p.as_router_key().is_some() { return Some("to_origin / as_router_key / as_aspa disagree with the variant".into()) }
+        }
+        _ => return Some("fields_of changed the kind".into()),
+    }
+    None
 }
 
 /// The RFC 8416 decision: Some(kind of the matching filter) or None (kept).
@@ -451,13 +477,15 @@ fn check_file(lf: &mut Lf, oc: &mut Oc, m: &MFile) -> u64 {
         let back3 = e1.and_then(|_| SlurmFile::from_reader(&w1[..]).map_err(|e| e.to_string()));
         let back4 = e2.and_then(|_| SlurmFile::from_reader(&w2[..]).map_err(|e| e.to_string()));
         let pays: Vec<MPay> = f.assertions.iter_payload().map(|p| fields_of(&p)).collect();
+        let acc: Option<String> = f.assertions.iter_payload().chain(back1.iter().flat_map(|b| b.assertions.iter_payload())).find_map(|p| accessor_disagreement(&p));
         let pays_back: Option<Vec<MPay>> = back1.as_ref().ok().map(|b| b.assertions.iter_payload().map(|p| fields_of(&p)).collect());
         let same_bytes = w1 == compact.as_bytes() && w2 == pretty.as_bytes();
-        (f, compact, [back1, back2, back3, back4], pays, pays_back, same_bytes)
+        (f, compact, [back1, back2, back3, back4], pays, pays_back, same_bytes, acc)
     });
     match r {
         Err(p) => lf.fail("C15.json.no_panic", wit, || p.clone()),
-        Ok((f, compact, backs, pays, pays_back, _same)) => {
+        Ok((f, compact, backs, pays, pays_back, _same, acc)) => {
+            if let Some(d) = acc { lf.fail("C15.assertions.payload.accessors", wit, || d.clone()) }
             for (i, b) in backs.iter().enumerate() {
                 let form = ["to_string/from_str", "to_string_pretty/from_str", "to_writer/from_reader", "to_writer_pretty/from_reader"][i];
                 match b {
@@ -515,6 +543,14 @@ fn main() {
         let aspas: Vec<MPay> = vec![MPay::Aspa { customer: 64496, providers: vec![64499] }, MPay::Aspa { customer: 64499, providers: vec![64496] }, MPay::Aspa { customer: 0, providers: vec![] }];
         let lib_origins: Vec<Payload> = origins.iter().map(|p| p.lib()).collect();
         let lib_others: Vec<(MPay, Payload)> = keys.iter().chain(aspas.iter()).map(|p| (p.clone(), p.lib())).collect();
+        {
+            let mut lf = Lf::new();
+            for (m, p) in origins.iter().zip(lib_origins.iter()).chain(lib_others.iter().map(|(m, p)| (m, p))) {
+                sp.eval();
+                if fields_of(p) != *m { lf.fail("C15.assertions.payload", || format!("payload={}", m.text()), || format!("constructed item reads back as {}", fields_of(p).text())) }
+                if let Some(d) = accessor_disagreement(p) { lf.fail("C15.assertions.payload.accessors", || format!("payload={}", m.text()), || d.clone()) }
+            }
+        }
         pfs.par_iter().for_each(|f| {
             let mut lf = Lf::new(); let mut oc = Oc::new(); let (mut ev, mut nt) = (0u64, 0u64);
             let lf_ = f.lib();
@@ -605,6 +641,12 @@ fn main() {
             MPay::Aspa { customer: 64496, providers: vec![64499] }, MPay::Aspa { customer: 64497, providers: vec![64496, 64499] }, MPay::Aspa { customer: 64498, providers: vec![] },
         ];
         let lib_pays: Vec<Payload> = pays.iter().map(|p| p.lib()).collect();
+        {
+            let mut lf = Lf::new();
+            for (m, p) in pays.iter().zip(lib_pays.iter()) {
+                if let Some(d) = accessor_disagreement(p) { lf.fail("C15.assertions.payload.accessors", || format!("payload={}", m.text()), || d.clone()) }
+            }
+        }
         let pf_lists = lists(&pf_items, 2); let bf_lists = lists(&bf_items, 2);
         let mut af_lists: Vec<Option<Vec<MAF>>> = vec![None]; af_lists.extend(lists(&af_items, 2).into_iter().map(Some));
         let lib_pf: Vec<Vec<PrefixFilter>> = pf_lists.iter().map(|l| l.iter().map(|f| f.lib()).collect()).collect();
@@ -836,7 +878,7 @@ fn main() {
     };
 
     let sp = ctx.space("json.sections",
-        "for each of the six sections: every list of <= 2 entries over that section's full entry alphabet (all other sections empty, ASPA sections absent unless it is the section under test): to_string / to_string_pretty / to_writer / to_writer_pretty parsed back by from_str / from_reader must equal the file; iter_payload of the file and of the re-parsed file must yield exactly the assertion fields (prefix, max-length incl. absent vs present, AS; SKI, AS, key octets; customer, providers in order) in section order; non-trivial = files with at least one entry");
+        "for each of the six sections: every list of <= 2 entries over that section's full entry alphabet (all other sections empty, ASPA sections absent unless it is the section under test): to_string / to_string_pretty / to_writer / to_writer_pretty parsed back by from_str / from_reader must equal the file; iter_payload of the file and of the re-parsed file must yield exactly the assertion fields (prefix, max-length incl. absent vs present, AS; SKI, AS, key octets; customer, providers in order) in section order, and every accessor of each yielded item (is_v4, payload_type, to_origin / as_router_key / as_aspa, Aspa::key, ProviderAsns::asn_count / len / is_empty, RouterKeyInfo::into_bytes / as_ref) must agree with those fields; non-trivial = files with at least one entry");
     {
         let mut files: Vec<MFile> = Vec::new();
         for l in lists(&pf_entries, 2) { files.push(MFile { pf: l, ..Default::default() }) }
